@@ -561,6 +561,13 @@ impl<R: Rng, M: IsingManager> QmcIsingGraph<R, M> {
 
     /// Check if two instances can safely swap managers and initial states
     pub fn can_swap_managers(&self, other: &Self) -> Result<(), String> {
+        if self.edges.len() != other.edges.len() {
+            return Err(format!(
+                "Graphs have different numbers of edges: {} / {}",
+                self.edges.len(),
+                other.edges.len()
+            ));
+        }
         self.edges
             .iter()
             .zip(other.edges.iter())
